@@ -635,6 +635,9 @@ package xixi_kv
 //@   requires [inv] INV_uiter(it)
 //@   ensures [inv] INV_uiter(it)
 //@   checks [filtered-after-moving] called("(*index.IndexIterator).Rewind") && called("(*xixi_kv.Iterator).skipToNext")
+// the position after Rewind is the one the index iterator's Rewind gives, filtered: a jump to a computed key in between
+// would need the ordering semantics of the merged iteration, which no contract here can establish
+//@   checks [no-jump-to-a-computed-key] !called("(*index.IndexIterator).Seek") && !called("(*index.IndexIterator).Next")
 //@   modifies type:index.IndexIterator.oldItems, type:index.iterHeap.items, arrays:index.iterator, type:index.mapIterator.curIndex, type:index.skipListIterator.curIndex, type:index.btreeIterator.current, type:index.btreeIterator.isIterable
 //@ func (*xixi_kv.Iterator).Seek
 //@   props C10 C09
